@@ -38,6 +38,16 @@ THEOREMS = [
     "HedVerif.C14.survives_iff",
     "HedVerif.C14.error_faults_survive",
     "HedVerif.C14.hedid_nested_library_counterexample",
+    "HedVerif.C14.duplicate_code_spec",
+    "HedVerif.C14.dup_reported",
+    "HedVerif.C14.dup_code_two",
+    "HedVerif.C14.dup_tag_any_placement",
+    "HedVerif.C14.deprecatedVerdict_iff",
+    "HedVerif.C14.inLibrary_exact",
+    "HedVerif.C14.conversionFactor_exact",
+    "HedVerif.C14.hedId_exact",
+    "HedVerif.C14.hedId_malformed",
+    "HedVerif.C14.itemExists_silent_of_found",
 ]
 BUDGET = {"quick": 400, "thorough": 3000}
 
@@ -401,6 +411,8 @@ def seed_xml(root, sd, els=None):
     """apply one fault to the tree in place (independent of the model's `seed`); returns the undo action"""
     els = els or elements(root)
     k = sd["k"]
+    if k == "dupAt":
+        return seed_xml_dup(root, sd, els)
     sec = "tags" if k in ("dupNode", "missingRef", "classAttr") else "unitClasses" if k == "defaultUnits" else sd["t"]
     el = els[sec][sd["i"]]
     if k == "dupNode":
@@ -435,6 +447,26 @@ def seed_xml(root, sd, els=None):
         for x in removed:
             old.append(x)
     return undo
+
+
+def seed_xml_dup(root, sd, els):
+    """one more definition with an existing name: a <node> below tag `under` (None: top level), a <unit> in unit
+    class `under`, or a new definition element at the end of the section"""
+    sec = sd["t"]
+    if sec == "tags":
+        parent = root.find("schema") if sd["under"] is None else els["tags"][sd["under"]]
+        new = ET.SubElement(parent, "node")
+    elif sec == "units":
+        parent = els["unitClasses"][sd["under"]]
+        new = ET.SubElement(parent, "unit")
+    else:
+        top, item = SECTION_XML[sec]
+        parent = root.find(".//" + top)
+        new = ET.SubElement(parent, item)
+    ET.SubElement(new, "name").text = sd["x"]
+    for a, v in sd["attrs"]:
+        _new_attr(new, sec, a, v)
+    return lambda: parent.remove(new)
 
 
 def impl_obs(schema, warnings_on):
@@ -574,8 +606,123 @@ def gen_seeds(rng, ms, n, full, per=None, controls=True):
     return out
 
 
+DUP_CODES = ("SCHEMA_DUPLICATE_NODE", "SCHEMA_LIBRARY_INVALID")
+
+
+def with_side(attrs, lib):
+    """the attributes of a copy that is a library entry (`lib`) or a standard one (None)"""
+    out = [[a, v] for a, v in attrs if a != "inLibrary"]
+    return out + ([["inLibrary", lib]] if lib else [])
+
+
+def gen_dup_seeds(rng, ms, plural, full):
+    """duplicate names at every kind of relative position, in every section with names; the expected code comes
+    from our own reading: DUPLICATE_NODE when both copies are on the same side (both carry inLibrary or neither
+    does), LIBRARY_INVALID when exactly one does.  A copy without inLibrary is only placed below standard nodes
+    (or at top level), so that it cannot inherit the attribute.  The copy always follows the original in document
+    order (it is the last child of its parent, whose subtree must end after the original), as in the model, where
+    it is the last entry of the section: the original stays the registered entry."""
+    secs = ms["secs"]
+    tags = secs["tags"]
+    lib = ms["header"]["library"] or None
+    other_lib = lib or "c14lib"
+    index = {}
+    for i, r in enumerate(tags):
+        index.setdefault(r[0], i)
+    own = [dict(map(tuple, r[1])) for r in tags]
+    plain = [i for i, r in enumerate(tags) if not r[0].endswith("/#")]
+    has_hash = [i for i in plain if tags[i][0] + "/#" in index]
+    std = [i for i in plain if "inLibrary" not in own[i]]
+    libs = [i for i in plain if "inLibrary" in own[i]]
+    out = []
+
+    def parent_of(i):
+        p = tags[i][0].rpartition("/")[0]
+        return index[p] if p else None
+
+    def node(i, place, under, side):
+        x = tags[i][0].rsplit("/", 1)[-1]
+        long = x if under is None else tags[under][0] + "/" + x
+        orig_side = own[i].get("inLibrary")
+        attrs = with_side([], side)
+        out.append({"k": "dupAt", "t": "tags", "orig": i, "place": place, "under": under, "x": x, "attrs": attrs,
+                    "e": [long, attrs, "", "", ""], "flipped": bool(orig_side) != bool(side),
+                    "expect": DUP_CODES[bool(orig_side) != bool(side)]})
+
+    def subtree_end(j):
+        k = j + 1
+        while k < len(tags) and tags[k][0].startswith(tags[j][0] + "/"):
+            k += 1
+        return k
+
+    def placements(i, need_std_parent):
+        side_ok = (lambda j: j is None or "inLibrary" not in own[j]) if need_std_parent else (lambda j: True)
+        ok = lambda j: side_ok(j) and (j is None or subtree_end(j) > i)
+        par = parent_of(i)
+        res = [("sibling", par)]
+        if par is not None:
+            res.append(("up", parent_of(par)))
+        sib = [j for j in plain if j > i and parent_of(j) == par and j not in has_hash]
+        res.append(("down", rng.choice(sib) if sib else i))
+        root_name = tags[i][0].split("/")[0]
+        far = [j for j in plain if tags[j][0].split("/")[0] != root_name and j not in has_hash and ok(j)]
+        if far:
+            res.append(("other-subtree", rng.choice(far)))
+        hp = [j for j in has_hash if ok(j)]
+        if hp:
+            res.append(("under-#-bearing", rng.choice(hp)))
+        res.append(("top-level", None))
+        return [(pl, u) for pl, u in res if ok(u)]
+
+    originals = (libs if lib else std)
+    # originals two levels deep or more, not in the last top-level subtree (so that "another subtree" after them exists)
+    last_root = tags[-1][0].split("/")[0]
+    nested = [i for i in originals if parent_of(i) is not None and parent_of(parent_of(i)) is not None
+              and tags[i][0].split("/")[0] != last_root]
+    for i in rng.sample(nested, 3 if full else 1):
+        for pl, u in placements(i, need_std_parent=not lib):
+            node(i, pl, u, own[i].get("inLibrary"))                                   # same schema, every placement
+        for pl, u in placements(i, need_std_parent=bool(lib))[-2 if not full else 0:]:
+            node(i, pl + ":clash", u, None if lib else other_lib)                     # the other side
+    if lib:
+        for i in rng.sample([j for j in std if parent_of(j) is not None], 2 if full else 1):
+            pls = placements(i, need_std_parent=True)
+            for pl, u in (pls if full else rng.sample(pls, 2)):
+                node(i, pl + ":standard", u, None)                                    # standard name, standard copy
+            for pl, u in (placements(i, False) if full else rng.sample(placements(i, False), 2)):
+                node(i, pl + ":library-copy-of-standard", u, lib)                     # library copy of a standard name
+    # the other sections with names
+    ucs = secs["unitClasses"]
+    for sec in ("units", "unitClasses", "unitModifiers", "valueClasses", "attributes"):
+        rows = secs[sec]
+        if not rows:
+            continue
+        picks = rng.sample(range(len(rows)), min(len(rows), 3 if full else 1))
+        for n_, j in enumerate(picks):
+            name, attrs, _d, owner, _pl = rows[j]
+            orig_side = dict(map(tuple, attrs)).get("inLibrary")
+            sides = [orig_side, None if orig_side else other_lib] if full else [[orig_side, None if orig_side else other_lib][rng.randrange(2)]]
+            for side in sides:
+                new_attrs = with_side(attrs, side)
+                under = None
+                if sec == "units":
+                    same = next(k for k, r in enumerate(ucs) if r[0] == owner)
+                    under = same if (n_ + bool(side)) % 2 == 0 else rng.randrange(same, len(ucs))
+                    owner_new = ucs[under][0]
+                    e = [name, new_attrs, "", owner_new, plural(name.lower())]
+                else:
+                    e = [name, new_attrs, "", "", ""]
+                out.append({"k": "dupAt", "t": sec, "orig": j, "place": "same-class" if sec == "units" and under == same
+                            else "other-class" if sec == "units" else "section", "under": under, "x": name,
+                            "attrs": new_attrs, "e": e, "flipped": bool(orig_side) != bool(side),
+                            "expect": DUP_CODES[bool(orig_side) != bool(side)]})
+    return out
+
+
 def wire(sd):
     """the request form of a seed (sections by name; `v: null` = valueless attribute)"""
+    if sd["k"] == "dupAt":
+        return {"k": "dupAt", "t": sd["t"], "e": sd["e"]}
     d = {"k": sd["k"], "i": sd["i"], "t": sd.get("t", "tags"), "a": sd.get("a", ""), "v": sd.get("v")}
     if d["v"] is None and sd["k"] != "classAttr":
         d["v"] = ""
@@ -651,6 +798,17 @@ def compare_case(ctx, name, sd, mres, root, els=None, gen=None):
         ctx.violation("warnings-off-returned-a-non-error", case, off[:5])
     if [i for i in on if i[1] == 1] != off:
         ctx.violation("warnings-off-not-the-error-subset", case, {"on_errors": [i for i in on if i[1] == 1][:5], "off": off[:5]})
+    if k == "dupAt":
+        ctx.count(f"dupAt:{sd['t']}:{sd['place']}:{'clash' if sd['flipped'] else 'same-side'}")
+        if not adm:
+            ctx.disagree("dupAdmissible holds for a repeated name", case, {"adm": adm}, "expected true")
+        for label, got in (("on", on), ("off", off)):
+            dup = [i[0] for i in got if i[0] in DUP_CODES and i[2] == ""]
+            if dup != [sd["expect"]]:
+                ctx.violation("duplicate-name-wrong-code", case, {"expected": [sd["expect"]], "reported": dup, "warnings": label})
+        if mres.get("dupCode") != sd["expect"]:
+            ctx.disagree("dupCodeOf = expected code from the XML reading", case, mres.get("dupCode"), sd["expect"])
+        return on
     if adm:
         code = SPEC_CODE[k]
         if code not in [i[0] for i in on]:
@@ -669,6 +827,8 @@ def run_schema(ctx, sess, name, seeded, n, full, per=None, controls=True):
     ms = read_model_schema(root, pluralize.plural)
     env = read_env(sess.dir, ms, all_text(ms))
     seeds = gen_seeds(ctx.rng, ms, n, full, per, controls) if seeded else []
+    if seeded:
+        seeds += gen_dup_seeds(ctx.rng, ms, pluralize.plural, full and name in SEEDED)
     ans = mbatch(ctx, [{"op": "c14.run", "schema": ms, "env": env, "seeds": [wire(s) for s in seeds]}])[0]
     if "bad-op" in ans:
         raise RuntimeError(f"model rejected {name}: {ans}")
@@ -745,6 +905,11 @@ def run(ctx):
     ctx.notes.append("fix aa5708e (library of a nested library tag = nearest inLibrary value) is followed by the model; the old "
                      "behaviour is kept as idLibOld / vHedIdOld with theorem hedid_nested_library_counterexample; nested library "
                      "tags of score_2.0.0 are always among the hedId / deprecatedFrom positions")
+    ctx.notes.append("duplicate names (dupAt): one more node / unit / unit class / modifier / value class / attribute with an "
+                     "existing name, for nodes as sibling, one level up, one level down, in another subtree, below a #-bearing "
+                     "node and at top level, as same-side copy and as library-vs-standard clash; the exact code (DUPLICATE_NODE "
+                     "vs LIBRARY_INVALID) is expected from our own reading of the inLibrary attributes, warnings on and off; the "
+                     "copy follows the original in document order (the model appends it to the section); histogram keys dupAt:*")
     ctx.notes.append("hed cache = scratch folder pre-populated from the bundled schema_data (offline)")
     full = not ctx.quick()
     n = 2 if ctx.quick() else 30
